@@ -36,6 +36,9 @@ differs only by local, behaviour-preserving refactoring idioms:
       Class.NAME in an iteration position is replaced by its literal;
       any(E for x in <literal>) / all(...) become an or / and chain
   T16 x = min(x, L) -> if x > L: x = L ;  x = max(x, L) -> if x < L: x = L
+  T18 getattr(o, "name") / setattr(o, "name", v) with a constant identifier
+      ->  o.name / o.name = v
+  T19 a, b = (E(v) for v in (x, y))   ->  a = E(x) ; b = E(y)
   T17 fields cached in locals over a region
         v = X.a ; w = X.b ; <region: no access to X.a / X.b, no call on or
         with X> ; X.a, X.b = v, w
@@ -589,6 +592,57 @@ class Canon:
         while i < len(stmts):
             s = stmts[i]
             nxt = stmts[i + 1] if i + 1 < len(stmts) else None
+            # T19: a, b = (E(v) for v in (x, y))  ->  a = E(x) ; b = E(y)
+            if isinstance(s, ast.Assign) and len(s.targets) == 1 and \
+                    isinstance(s.targets[0], (ast.Tuple, ast.List)) and \
+                    isinstance(s.value, (ast.GeneratorExp, ast.ListComp)) \
+                    and len(s.value.generators) == 1:
+                g = s.value.generators[0]
+                tg = s.targets[0].elts
+                if isinstance(g.iter, (ast.Tuple, ast.List)) and \
+                        not g.ifs and not g.is_async and isinstance(
+                            g.target, ast.Name) and \
+                        len(g.iter.elts) == len(tg) and all(
+                            isinstance(t, ast.Name) for t in tg) and all(
+                                isinstance(x, (ast.Name, ast.Attribute,
+                                               ast.Constant))
+                                for x in g.iter.elts):
+                    tnames = {t.id for t in tg}
+                    used = {x.id for x in ast.walk(s.value.elt)
+                            if isinstance(x, ast.Name)} | {
+                                x.id for e in g.iter.elts
+                                for x in ast.walk(e)
+                                if isinstance(x, ast.Name)}
+                    if not (tnames & used):
+                        news = []
+                        for t, x in zip(tg, g.iter.elts):
+                            e2 = _ConstSubst({g.target.id: x}).visit(
+                                copy.deepcopy(s.value.elt))
+                            news.append(ast.copy_location(ast.Assign(
+                                targets=[ast.Name(id=t.id, ctx=ast.Store())],
+                                value=e2), s))
+                        for x in news:
+                            ast.fix_missing_locations(x)
+                        self.did("T19.unpack-comprehension")
+                        stmts[i:i + 1] = news
+                        continue
+            # T18: setattr(o, "name", v) with a constant identifier
+            if isinstance(s, ast.Expr) and isinstance(
+                    s.value, ast.Call) and isinstance(
+                        s.value.func, ast.Name) and \
+                    s.value.func.id == "setattr" and len(
+                        s.value.args) == 3 and not s.value.keywords and \
+                    isinstance(s.value.args[1], ast.Constant) and \
+                    isinstance(s.value.args[1].value, str) and \
+                    s.value.args[1].value.isidentifier() and not any(
+                        isinstance(a, ast.Starred) for a in s.value.args):
+                s = ast.copy_location(ast.Assign(
+                    targets=[ast.Attribute(
+                        value=s.value.args[0], attr=s.value.args[1].value,
+                        ctx=ast.Store())],
+                    value=s.value.args[2]), s)
+                ast.fix_missing_locations(s)
+                self.did("T18.setattr-const")
             # T6
             if isinstance(s, ast.Assign) and len(s.targets) == 1:
                 t = s.targets[0]
@@ -793,6 +847,21 @@ class Canon:
                                   and n.id != "self"}
                     row_attrs |= {n.attr for x in e.elts
                                   for n in ast.walk(x)
+                                  if isinstance(n, ast.Attribute)}
+                    if any(isinstance(n, ast.Attribute) and isinstance(
+                            n.ctx, (ast.Store, ast.Del)) and
+                            n.attr in row_attrs
+                            for b_ in s.body for n in ast.walk(b_)):
+                        ok = False
+                elif _pure_operand(e) and not isinstance(
+                        e, (ast.Tuple, ast.List)) and isinstance(
+                            s.target, ast.Name):
+                    # a bare name / field as the row
+                    rows.append(e)
+                    row_names |= {n.id for n in ast.walk(e)
+                                  if isinstance(n, ast.Name)
+                                  and n.id != "self"}
+                    row_attrs |= {n.attr for n in ast.walk(e)
                                   if isinstance(n, ast.Attribute)}
                     if any(isinstance(n, ast.Attribute) and isinstance(
                             n.ctx, (ast.Store, ast.Del)) and
@@ -1201,6 +1270,14 @@ class Canon:
                         else:
                             setattr(n, field, r)
                         self.did("T10.operator-call")
+                        continue
+                    r = _const_attr_call(x)
+                    if r is not None:
+                        if isinstance(val, list):
+                            val[k] = r
+                        else:
+                            setattr(n, field, r)
+                        self.did("T18.getattr-const")
         for n in ast.walk(s):
             for field, val in list(ast.iter_fields(n)):
                 if isinstance(val, ast.IfExp):
@@ -1289,7 +1366,25 @@ _OPERATOR_CMP = {"lt": ast.Lt, "le": ast.LtE, "gt": ast.Gt, "ge": ast.GtE,
                  "eq": ast.Eq, "ne": ast.NotEq}
 _OPERATOR_BIN = {"add": ast.Add, "sub": ast.Sub, "mul": ast.Mult,
                  "floordiv": ast.FloorDiv, "mod": ast.Mod,
-                 "truediv": ast.Div}
+                 "truediv": ast.Div,
+                 # (on the numbers and immutable values this code base
+                 # computes with, the in-place forms return the same result)
+                 "iadd": ast.Add, "isub": ast.Sub, "imul": ast.Mult,
+                 "ifloordiv": ast.FloorDiv, "imod": ast.Mod,
+                 "itruediv": ast.Div}
+
+
+def _const_attr_call(x):
+    """getattr(o, "name") with a constant identifier -> o.name"""
+    if isinstance(x, ast.Call) and isinstance(x.func, ast.Name) and \
+            x.func.id == "getattr" and len(x.args) == 2 and \
+            not x.keywords and isinstance(x.args[1], ast.Constant) and \
+            isinstance(x.args[1].value, str) and \
+            x.args[1].value.isidentifier() and not isinstance(
+                x.args[0], ast.Starred):
+        return ast.copy_location(ast.Attribute(
+            value=x.args[0], attr=x.args[1].value, ctx=ast.Load()), x)
+    return None
 
 
 def _operator_call(x):
